@@ -299,8 +299,12 @@ def run(pid, tier, seed, t0):
     if drift:
         vlib.log(f"DRIFT property={pid}: {len(drift)} sequence step(s) where the real adapter differs from the model without "
                  f"falsifying a clause, e.g. {drift[:3]}")
+    # the sniffer in front of the rewind buffer (ReadVersion + Rewind as the server assembles them): bytes clause of Sniff.tla
+    import c_sniff
+    sniff = c_sniff.bytes_stage(pid, tier, seed, verdict)
     code, n_unlisted = verdict.finish()
     coverage = {
+        "sniffing_rewind_assembly": sniff,
         "states": mc.distinct, "transitions": mc.generated, "model_depth": mc.depth,
         "model_config": cfg["mc"], "model_wall_s": round(mc.wall, 1),
         "traces_validated_against_impl": st["nseq"],
@@ -333,6 +337,9 @@ def run(pid, tier, seed, t0):
 def replay(pid, path):
     obj = json.load(open(path))
     rp = obj.get("replay", obj)
+    if rp.get("kind") == "sniff-vectors":
+        import c_sniff
+        return c_sniff.replay(pid, path)
     verdict = vlib.Verdict(pid)
     seq = {"stack": rp["stack"], "ops": rp["ops"], "src": "replay"}
     trace, summ = _execute(pid, [seq], 0, 0, vlib.seed_from_env(), "replay")
